@@ -501,6 +501,37 @@ def run(ck: Check):
             edges += [rng.choice(edges)] if edges else []
         graphs.append((n, edges, False))
 
+    def subsize_case(g, n, edges, nes, gl, key, k):
+        """get_subgraphs_of_size(k): as a set of vertex sets = the connected
+        k-subsets (oracle + model); and, as an enumeration, no vertex set may
+        be listed twice.  The code builds CircuitLocation(list(curr_path))
+        from a Python set; for labels >= 8 the iteration order of that set
+        depends on the insertion history, CircuitLocation equality is order
+        sensitive, so the same vertex set can be returned several times."""
+        r = safe(lambda: g.get_subgraphs_of_size(k))
+        impl = r if r == 'raise' else ' ; '.join(
+            ' '.join(map(str, l)) for l in
+            sorted({tuple(sorted(l)) for l in r}))
+        add(f'subsize {gl} | {k}', impl, ' ; '.join(
+            ' '.join(map(str, l))
+            for l in o_conn_subsets(n, nes, k)), ('ss', key, k))
+        if r != 'raise':
+            ck.count(('ss-dup', key, k))
+            if len({frozenset(l) for l in r}) != len(r):
+                dup = sorted(tuple(l) for l in r)
+                ck.violation(
+                    'subsize-duplicate-vertex-sets',
+                    'get_subgraphs_of_size lists the same vertex set more '
+                    'than once (in different orders)',
+                    {'n': n, 'edges': edges, 'size': k, 'result': dup[:12]})
+
+    # fixed reproducers of the duplicate enumeration (labels >= 8)
+    for n, edges, k in [(9, [(0, 8)], 2),
+                        (17, [(0, 8), (0, 16), (8, 16)], 3)]:
+        g = CouplingGraph(edges, n)
+        nes = sorted({tuple(sorted(e)) for e in edges})
+        subsize_case(g, n, edges, nes, gline(n, edges), (n, tuple(nes)), k)
+
     for n, edges, small in graphs:
         g = CouplingGraph(edges, n)
         gl = gline(n, edges)
@@ -573,16 +604,10 @@ def run(ck: Check):
                     'spt-not-shortest', 'get_shortest_path_tree returns a '
                     'path that is not a valid shortest path / raises wrongly',
                     {'n': n, 'edges': edges, 'source': s, 'impl': impl})
-        # subgraphs
-        if n <= 7:
-            for k in (range(1, n + 1) if small else [rng.randint(1, min(n, 4))]):
-                r = safe(lambda: g.get_subgraphs_of_size(k))
-                impl = r if r == 'raise' else ' ; '.join(
-                    ' '.join(map(str, l)) for l in
-                    sorted({tuple(sorted(l)) for l in r}))
-                add(f'subsize {gl} | {k}', impl, ' ; '.join(
-                    ' '.join(map(str, l))
-                    for l in o_conn_subsets(n, nes, k)), ('ss', key, k))
+        # subgraphs (all sizes of graphs; vertex labels >= 8 matter, see
+        # subsize_case)
+        for k in (range(1, n + 1) if small else [rng.randint(1, min(n, 4))]):
+            subsize_case(g, n, edges, nes, gl, key, k)
         locs = []
         if small and n <= 4:
             for k in range(1, n + 1):
@@ -718,6 +743,37 @@ def run(ck: Check):
         idx = {v: i for i, v in enumerate(x for x in range(n) if x != q)}
         return o_connected(n - 1, [(idx[a], idx[b]) for a, b in nes
                                    if a != q and b != q])
+
+    def subsize_case(g, n, edges, nes, gl, key, k):
+        """get_subgraphs_of_size(k): as a set of vertex sets = the connected
+        k-subsets (oracle + model); and, as an enumeration, no vertex set may
+        be listed twice.  The code builds CircuitLocation(list(curr_path))
+        from a Python set; for labels >= 8 the iteration order of that set
+        depends on the insertion history, CircuitLocation equality is order
+        sensitive, so the same vertex set can be returned several times."""
+        r = safe(lambda: g.get_subgraphs_of_size(k))
+        impl = r if r == 'raise' else ' ; '.join(
+            ' '.join(map(str, l)) for l in
+            sorted({tuple(sorted(l)) for l in r}))
+        add(f'subsize {gl} | {k}', impl, ' ; '.join(
+            ' '.join(map(str, l))
+            for l in o_conn_subsets(n, nes, k)), ('ss', key, k))
+        if r != 'raise':
+            ck.count(('ss-dup', key, k))
+            if len({frozenset(l) for l in r}) != len(r):
+                dup = sorted(tuple(l) for l in r)
+                ck.violation(
+                    'subsize-duplicate-vertex-sets',
+                    'get_subgraphs_of_size lists the same vertex set more '
+                    'than once (in different orders)',
+                    {'n': n, 'edges': edges, 'size': k, 'result': dup[:12]})
+
+    # fixed reproducers of the duplicate enumeration (labels >= 8)
+    for n, edges, k in [(9, [(0, 8)], 2),
+                        (17, [(0, 8), (0, 16), (8, 16)], 3)]:
+        g = CouplingGraph(edges, n)
+        nes = sorted({tuple(sorted(e)) for e in edges})
+        subsize_case(g, n, edges, nes, gline(n, edges), (n, tuple(nes)), k)
 
     for n, edges, small in graphs:
         g = CouplingGraph(edges, n)
